@@ -2,7 +2,10 @@ package pnet
 
 import (
 	"context"
+	"encoding/json"
 	"fmt"
+	"os"
+	"path/filepath"
 	"sort"
 	"strings"
 	"sync"
@@ -42,7 +45,40 @@ type LimCase struct {
 	//       client code does when it relays and syncs concurrently);
 	//   2 = scripted worst case: all ids first, then the bodies in reverse.
 	Order int `json:"order,omitempty"`
+	// Excluded names a known finding whose shape the generator replaced by the
+	// contiguous layout (counted in the evidence).
+	Excluded string `json:"excluded,omitempty"`
 }
+
+// knownFixed reports whether known_findings.json marks the key as fixed. As
+// long as F-C18-2 is not, request layouts other than "contiguous" are excluded
+// by construction from the main generator (the dedicated demonstrator
+// TestC18KnownHOL decides whether the finding still reproduces).
+func knownFixed(key string) bool {
+	root := os.Getenv("VERIF_ROOT")
+	if root == "" {
+		root = "/verif"
+	}
+	raw, err := os.ReadFile(filepath.Join(root, "known_findings.json"))
+	if err != nil {
+		return false
+	}
+	var entries []struct {
+		Key    string `json:"key"`
+		Status string `json:"status"`
+	}
+	if json.Unmarshal(raw, &entries) != nil {
+		return false
+	}
+	for _, e := range entries {
+		if e.Key == key && e.Status == "fixed" {
+			return true
+		}
+	}
+	return false
+}
+
+var holFixed = knownFixed("F-C18-2")
 
 func (p LimPeer) ip() string { return fmt.Sprintf("127.%d.7.%d", 40+p.Subnet, p.Host) }
 
@@ -67,6 +103,9 @@ func genLim(t *rapid.T) LimCase {
 		c.Peers = append(c.Peers, p)
 	}
 	c.Order = rapid.SampledFrom([]int{0, 0, 0, 1, 1, 2}).Draw(t, "order")
+	if c.Order != 0 && !holFixed && os.Getenv("VERIF_C18_ALL_LAYOUTS") == "" {
+		c.Order, c.Excluded = 0, "F-C18-2/interleaved-request-messages-under-per-peer-limit"
+	}
 	nk := rapid.IntRange(1, 5).Draw(t, "nkinds")
 	for i := 0; i < nk; i++ {
 		c.Kinds = append(c.Kinds, rapid.IntRange(0, 2).Draw(t, "kind"))
@@ -88,6 +127,9 @@ type limReq struct {
 
 func runLim(c LimCase, cs *kit.CaseStats) error {
 	c.Order = mod(c.Order, 3)
+	if c.Excluded != "" {
+		cs.Excluded(c.Excluded)
+	}
 	if c.PerPeer < 1 || len(c.Peers) == 0 {
 		return nil // outside the documented domain
 	}
@@ -408,3 +450,22 @@ var c18LimProp = kit.Prop[LimCase]{
 func TestC18Limits(t *testing.T) { c18LimProp.Main(t) }
 
 func mod(i, n int) int { return ((i % n) + n) % n }
+
+// TestC18KnownHOL is the demonstrator of known finding F-C18-2: with a
+// per-peer limit of 1, two requests whose messages are interleaved on the
+// connection (id a, id b, body b, body a) - a layout two goroutines of the
+// syncer's own client produce by chance - are not both answered: the stream
+// the per-peer limit holds back blocks the connection's in-order frame
+// delivery, so the admitted handler never receives its request body.
+func TestC18KnownHOL(t *testing.T) {
+	saved := closeWatchdog
+	closeWatchdog = 6 * time.Second
+	defer func() { closeWatchdog = saved }()
+	c := LimCase{PerPeer: 1, PerSubnet: 0, Prefix: 32, Peers: []LimPeer{{Subnet: 0, Host: 1, Bursts: []int{2}}}, Kinds: []int{0}, Order: 2}
+	cs := &kit.CaseStats{}
+	if err := runLim(c, cs); err != nil {
+		fmt.Printf("KNOWN-REPRODUCED F-C18-2: %.300s\n", err.Error())
+		return
+	}
+	fmt.Println("KNOWN-GONE F-C18-2")
+}
